@@ -274,6 +274,43 @@ theorem isSat_ok {cfg : Config} (hc : Covers cfg = true) {s : Stack} {st : St} (
   · obtain ⟨s1, e1, g1⟩ := solve_ok hSolve h (some f)
     exact ⟨s1, by simp [isSat, hps, e1], g1.inv⟩
 
+/-- a one-shot query one of whose native calls raises: the `finally` sets `pending_pop`, and the pending pop undoes
+    whatever the query had done before the exception -/
+theorem isSatFails_ok {cfg : Config} (hc : Covers cfg = true) {s : Stack} {st : St} (h : Inv cfg s st) (fail : Fail)
+    (f : Nat) : ∃ st', isSatFails cfg fail f st = .ok st' ∧ Inv cfg s st' := by
+  obtain ⟨hAdd, hPush, hPop, hSolve, hReset, hRead⟩ := (covers_iff cfg).1 hc
+  have hne : s ≠ [] := by obtain ⟨_, _, g0⟩ := h; exact g0.nonempty
+  by_cases hps : cfg.pushSupported = true
+  · obtain ⟨s1, e1, g1⟩ := push_ok hPush h 1
+    cases fail with
+    | add =>
+      obtain ⟨s2, e2, g2⟩ := enter_inv g1.inv
+      refine ⟨{ s2 with pending := true }, by simp [isSatFails, hps, e1, hAdd, e2], ?_⟩
+      obtain ⟨s4, e4, g4⟩ := popCore_good g2 1 (by
+        cases s with
+        | nil => exact absurd rfl hne
+        | cons _ _ => simp)
+      refine ⟨s4, ?_, by simpa using g4⟩
+      have := pending_eta s2 g2.notPending
+      simp only [clear, if_true]
+      rw [this]
+      exact e4
+    | solve =>
+      obtain ⟨s2, e2, g2⟩ := add_ok hAdd g1.inv f
+      obtain ⟨s3, e3, g3⟩ := solve_ok hSolve g2.inv none
+      refine ⟨{ s3 with pending := true }, by simp [isSatFails, hps, e1, e2, e3], ?_⟩
+      obtain ⟨s4, e4, g4⟩ := popCore_good g3 1 (by
+        cases s with
+        | nil => exact absurd rfl hne
+        | cons _ _ => simp [addItem])
+      refine ⟨s4, ?_, by simpa [addItem] using g4⟩
+      have := pending_eta s3 g3.notPending
+      simp only [clear, if_true]
+      rw [this]
+      exact e4
+  · obtain ⟨s1, e1, g1⟩ := solve_ok hSolve h (some f)
+    exact ⟨s1, by simp [isSatFails, hps, e1], g1.inv⟩
+
 /-- one step of the solver API, started in a related state, ends in a related state -/
 theorem step_inv {cfg : Config} (hc : Covers cfg = true) {s : Stack} {st : St} (h : Inv cfg s st) (o : Op)
     (hl : legal s o.cmd = true) :
@@ -310,6 +347,17 @@ theorem step_inv {cfg : Config} (hc : Covers cfg = true) {s : Stack} {st : St} (
     | isSat => exact isSat_ok hc h f
     | isUnsat => exact isSat_ok hc h f
     | isValid => exact isSat_ok hc h (negOf f)
+    | assuming =>
+      obtain ⟨st1, h1, g1⟩ := solve_ok hSolve h (some f)
+      exact ⟨st1, h1, g1.inv⟩
+  | solveFails =>
+    obtain ⟨st1, h1, g1⟩ := solve_ok hSolve h none
+    exact ⟨st1, h1, g1.inv⟩
+  | oneshotFails q fail f =>
+    cases q with
+    | isSat => exact isSatFails_ok hc h fail f
+    | isUnsat => exact isSatFails_ok hc h fail f
+    | isValid => exact isSatFails_ok hc h fail (negOf f)
     | assuming =>
       obtain ⟨st1, h1, g1⟩ := solve_ok hSolve h (some f)
       exact ⟨st1, h1, g1.inv⟩
